@@ -31,7 +31,9 @@ func calleeName(c *ssa.CallCommon) string {
 	case *ssa.MakeClosure:
 		return fnKey(f.Fn.(*ssa.Function))
 	}
-	return "dynamic"
+	// call through a function value: contracts may be given per named function type ("dynamic:obiseq.SequencePredicate")
+	t := strings.ReplaceAll(c.Value.Type().String(), modPrefix, "")
+	return "dynamic:" + t
 }
 
 func (fx *fnExec) setResult(dst *ssa.Call, v SV) {
@@ -54,6 +56,7 @@ func (fx *fnExec) execCall(dst *ssa.Call, c *ssa.CallCommon, where string) {
 		args = append(args, fx.val(a))
 		argTypes = append(argTypes, a.Type())
 	}
+	_ = argTypes
 	if b, ok := c.Value.(*ssa.Builtin); ok {
 		fx.execBuiltin(dst, b, c, args, where)
 		return
@@ -205,6 +208,15 @@ func (fx *fnExec) applyContract(dst *ssa.Call, ctr *FuncContract, name string, c
 	}
 	if c.IsInvoke() {
 		env.names["recv"] = args[0]
+	}
+	if strings.HasPrefix(name, "dynamic:") {
+		// the function value itself is visible to the contract as `fn`
+		fv := fx.val(c.Value)
+		if f, ok := fv.(FnV); ok {
+			env.names["fn"] = Sc{f.Ref, c.Value.Type()}
+		} else {
+			env.names["fn"] = fv
+		}
 	}
 	short := shortName(name)
 	for k, cl := range ctr.Requires {
